@@ -287,11 +287,11 @@ equal_st = st.fixed_dictionaries(
 )
 
 
-def strat_case_st():
+def strat_case_st(nfinal=3):
     names = [k for k in STRATEGIES]
     return st.fixed_dictionaries(
         {
-            "spec": gen.structure(nfinal=3, max_chains=3, min_chains=1),
+            "spec": gen.structure(nfinal=3, max_chains=3, min_chains=1) if nfinal == 3 else gen.structure(nfinal=4, max_chains=2, min_chains=1, spins=["0", "1/2", "1"]),
             "pv": st.lists(st.floats(0.05, 0.95), min_size=8, max_size=8),
             "pv2": st.lists(st.floats(0.05, 0.95), min_size=8, max_size=8),
             "ev_seed": st.integers(0, 2**31 - 1),
@@ -303,7 +303,9 @@ def strat_case_st():
 
 
 def run_strategies(ctx):
-    ctx.run_cases(strategy_equivalence, strat_case_st(), ctx.n(64, 1200))
+    ctx.run_cases(strategy_equivalence, strat_case_st(), ctx.n(60, 1200), name="three_body")
+    # four-body cascades: longer contraction programs (cyclic axis permutations only occur here)
+    ctx.run_cases(strategy_equivalence, strat_case_st(4), ctx.n(20, 400), name="four_body")
 
 
 def run_cached_lik(ctx):
